@@ -1,5 +1,10 @@
-"""Fresh-process reference for C07: reads {"method", "pil", "thr", "psm", "keep"} from stdin, seeds numpy
-with 1 (as the CLI does), runs get_protein_group_results once and prints the canonical rows as JSON."""
+"""Fresh-process references for C07.
+
+default: reads {"method", "pil", "thr", "psm", "keep"} from stdin, seeds numpy with 1 (as the CLI does), runs
+get_protein_group_results once and prints the canonical rows as JSON.
+`c07_fresh.py stream`: reads a "cli_stream" case from stdin, runs the real main(argv) in THIS process (under the
+PYTHONHASHSEED the caller set) with the recorders of harness/cli_model.py and the process-level recorder of
+np.random.shuffle, recomputes the same command line in command-line order, and prints everything as one JSON line."""
 import json
 import sys
 from pathlib import Path
@@ -8,7 +13,11 @@ sys.path.insert(0, str(Path(__file__).resolve().parent))
 import lib  # noqa: E402
 
 lib.setup_impl_path()
-from props.C07 import call_once  # noqa: E402
+from props.C07 import call_once, run_stream_here  # noqa: E402
 
 case = json.loads(sys.stdin.read())
-print(json.dumps(call_once(case["method"], None, case["pil"], case)))
+if len(sys.argv) > 1 and sys.argv[1] == "stream":
+    out = lib._safe(run_stream_here, case)
+    print(json.dumps(out, default=str))
+else:
+    print(json.dumps(call_once(case["method"], None, case["pil"], case)))
